@@ -7,6 +7,7 @@ package statefulset
 
 import (
 	"encoding/json"
+	"context"
 	"fmt"
 	"os"
 	"sort"
@@ -20,7 +21,115 @@ import (
 	"k8s.io/apimachinery/pkg/types"
 	"k8s.io/client-go/kubernetes/fake"
 	core "k8s.io/client-go/testing"
+	"k8s.io/client-go/tools/record"
+
+	apps "github.com/pingcap/advanced-statefulset/client/apis/apps/v1"
 )
+
+// rvHistory drives whole reconciles (the REAL UpdateStatefulSet) through a series of template edits while the rollout
+// is held back (OnDelete, or pods that never become ready) or allowed to proceed, and after every successful
+// reconcile counts the revisions in the API that nothing names: not the current revision the reconcile started
+// from, not the newest revision (the one matching the template), not the label of any pod in the snapshot handed in.
+type rvHistory struct {
+	Kind     string `json:"kind"` // history
+	Strategy string `json:"update_strategy"`
+	Limit    int32  `json:"history_limit"`
+	Healthy  bool   `json:"pods_become_ready"`
+	Edits    int    `json:"template_edits"`
+	Failure  string `json:"failure,omitempty"`
+}
+
+type rvWorld struct{ live map[string]*v1.Pod }
+
+func (w *rvWorld) CreateStatefulPod(set *apps.StatefulSet, pod *v1.Pod) error {
+	w.live[pod.Name] = pod.DeepCopy()
+	return nil
+}
+func (w *rvWorld) UpdateStatefulPod(set *apps.StatefulSet, pod *v1.Pod) error { return nil }
+func (w *rvWorld) DeleteStatefulPod(set *apps.StatefulSet, pod *v1.Pod) error {
+	delete(w.live, pod.Name)
+	return nil
+}
+
+type rvStatus struct{ last **apps.StatefulSetStatus }
+
+func (c rvStatus) UpdateStatefulSetStatus(set *apps.StatefulSet, status *apps.StatefulSetStatus) error {
+	cp := status.DeepCopy()
+	*c.last = cp
+	return nil
+}
+
+func rvHistoryJudge(c *rvHistory) string {
+	set := newStatefulSet(3)
+	set.Generation = 1
+	set.Spec.UpdateStrategy.Type = apps.StatefulSetUpdateStrategyType(c.Strategy)
+	lim := c.Limit
+	set.Spec.RevisionHistoryLimit = &lim
+	client := fake.NewSimpleClientset()
+	world := &rvWorld{live: map[string]*v1.Pod{}}
+	var last *apps.StatefulSetStatus
+	ssc := &defaultStatefulSetControl{podControl: world, statusUpdater: rvStatus{&last}, csAppsV1: client.AppsV1(), recorder: &record.FakeRecorder{}}
+	reconcile := func(progress bool) string {
+		var snap []*v1.Pod
+		for _, p := range world.live {
+			snap = append(snap, p)
+		}
+		startCurrent := set.Status.CurrentRevision
+		named := map[string]bool{}
+		for _, p := range snap {
+			named[p.Labels["controller-revision-hash"]] = true
+		}
+		if err := ssc.UpdateStatefulSet(set, snap); err != nil {
+			return "" // not a successful reconcile: nothing is promised
+		}
+		if last != nil {
+			set.Status = *last
+		}
+		list, err := client.AppsV1().ControllerRevisions(set.Namespace).List(context.TODO(), metav1.ListOptions{})
+		if err != nil {
+			return ""
+		}
+		var newest *kubeapps.ControllerRevision
+		for i := range list.Items {
+			if newest == nil || list.Items[i].Revision > newest.Revision {
+				newest = &list.Items[i]
+			}
+		}
+		unused := 0
+		for i := range list.Items {
+			r := &list.Items[i]
+			if r.Name == startCurrent || r == newest || named[r.Name] || (startCurrent == "" && r == newest) {
+				continue
+			}
+			unused++
+		}
+		if unused > int(c.Limit) {
+			return fmt.Sprintf("a reconcile succeeded but %d unused revisions remain (of %d), limit is %d", unused, len(list.Items), c.Limit)
+		}
+		if progress {
+			for _, p := range world.live {
+				p.Status.Phase = v1.PodRunning
+				p.Status.Conditions = []v1.PodCondition{{Type: v1.PodReady, Status: v1.ConditionTrue}}
+			}
+		}
+		return ""
+	}
+	for i := 0; i < 8; i++ { // bring the set up
+		if msg := reconcile(true); msg != "" {
+			return "while the set comes up: " + msg
+		}
+	}
+	for e := 1; e <= c.Edits; e++ {
+		set.Spec.Template.Spec.Containers[0].Image = fmt.Sprintf("edit-%d", e)
+		set.Generation++
+		for k := 0; k < 3; k++ {
+			if msg := reconcile(c.Healthy); msg != "" {
+				return fmt.Sprintf("after template edit %d: %s", e, msg)
+			}
+		}
+	}
+	return ""
+}
 
 type rvSpec struct {
 	Name     string `json:"name"`
@@ -190,7 +299,28 @@ func TestReplayRevisions(t *testing.T) {
 			}
 		}
 	}
+	nh := 0
+	for _, strat := range []string{"OnDelete", "RollingUpdate"} {
+		for _, limit := range []int32{0, 1, 2} {
+			for _, healthy := range []bool{false, true} {
+				if found >= 3 {
+					break
+				}
+				nh++
+				c := &rvHistory{Kind: "history", Strategy: strat, Limit: limit, Healthy: healthy, Edits: 5}
+				msg := rvHistoryJudge(c)
+				if msg == "" || seenMsg["h:"+msg[:20]] {
+					continue
+				}
+				seenMsg["h:"+msg[:20]] = true
+				c.Failure = msg
+				out, _ := json.Marshal(c)
+				fmt.Printf("REPRODUCED %s\n", out)
+				found++
+			}
+		}
+	}
 	if found == 0 {
-		fmt.Printf("NOT-REPRODUCED bounded search: %d revision populations (owner self/other/none, selector labels and/or upgrade marker) x limits {0,1} x live sets\n", len(cases))
+		fmt.Printf("NOT-REPRODUCED bounded search: %d whole-reconcile histories (5 template edits x strategy x limit x pod health) and %d revision populations (owner self/other/none, selector labels and/or upgrade marker) x limits {0,1} x live sets\n", nh, len(cases))
 	}
 }
